@@ -212,7 +212,8 @@ Example C11_pivot_example :
      ([99%N], [VStr [112%N]; VStr [113%N]; VStr [114%N]; VStr [112%N]; VStr [113%N]; VStr [114%N]; VStr [112%N]; VStr [113%N]; VStr [114%N]]);
      ([98%N], [VNone; VNum false 8; VNone; VNum false 2; VNum false 6; VNone; VNone; VNum false 4; VNum false 10])].
 Proof.
-  cbv zeta. split; [repeat constructor|]. split; [repeat constructor; cbn; tauto|]. split; [vm_compute; repeat constructor|].
+  cbv zeta. split; [repeat constructor|]. split; [repeat constructor; cbn; tauto|].
+  split; [match goal with |- Forall _ ?l => let l' := eval vm_compute in l in change l with l' end; repeat constructor|].
   split; [|split; vm_compute; reflexivity].
   intros i i' Hi Hi'. cbn in Hi, Hi'.
   do 5 (destruct i as [|i]; [do 5 (destruct i' as [|i']; [vm_compute; intros C; try reflexivity; try discriminate C|]); exfalso; lia|]); exfalso; lia.
